@@ -171,3 +171,38 @@ def alphabet(rule: str, exception=None, neutral='S') -> str:
             s.add(c)
             break
     return ''.join(sorted(s))
+
+
+# ------------------------------------------------------------------------------------------
+# Decomposition used only to ATTRIBUTE discrepancies to the known finding "cleavage context beyond
+# P1/P1' is evaluated per graph node" (never to decide a property):
+#   loose sites      positions at which some alternative matches when only its P1 / P1' parts are kept
+#   mandatory sites  positions at which an alternative WITHOUT any P4,P3,P2,P2' constraint matches and
+#                    that the exception does not block (their status cannot depend on lost context)
+_CTX = ('P4', 'P3', 'P2', "P2'")
+
+
+def _strip(alt):
+    return {k: v for k, v in alt.items() if k not in _CTX}
+
+
+_LOOSE = {k: [_complete(_strip(a)) for a in v] for k, v in RULES.items()}
+_FREE = {k: [_complete(a) for a in v if not any(c in a for c in _CTX)] for k, v in RULES.items()}
+
+
+def has_context(rule, exception=None) -> bool:
+    return bool(exception) or any(any(c in a for c in _CTX) for a in RULES[rule])
+
+
+def loose_sites(seq, rule):
+    return [i for i in range(1, len(seq)) if any(_match_alt(seq, i, a) for a in _LOOSE[rule])]
+
+
+def mandatory_sites(seq, rule, exception=None):
+    out = []
+    for i in range(1, len(seq)):
+        if any(_match_alt(seq, i, a) for a in _FREE[rule]):
+            if exception and any(_match_alt(seq, i, _complete(_strip(a))) for a in EXCEPTIONS[exception]):
+                continue      # possibly blocked (even with partial context): optional
+            out.append(i)
+    return out
